@@ -30,15 +30,15 @@ SYS_PROPS = ['C01', 'C02', 'C03', 'C06', 'C08', 'C10', 'C12', 'C15', 'C19', 'C20
 
 # exhaustive configurations of S: (cfg file, properties whose design-level statement it checks)
 MC_CFGS = {
-    'quick': ['BertE.q.cfg', 'BertE.nq.cfg', 'BertE.sk.cfg', 'BertE.qs.cfg', 'BertE.fq.cfg', 'BertE.qh.cfg', 'BertE.r.cfg'],
-    'thorough': ['BertE.q.t.cfg', 'BertE.nq.t.cfg', 'BertE.sk.t.cfg', 'BertE.qs.t.cfg', 'BertE.q3.t.cfg', 'BertE.qh.t.cfg', 'BertE.r.t.cfg', 'BertE.r2.cfg',
+    'quick': ['BertE.q.cfg', 'BertE.nq.cfg', 'BertE.sk.cfg', 'BertE.qs.cfg', 'BertE.fq.cfg', 'BertE.qh.cfg', 'BertE.r.cfg', 'BertE.adm.cfg'],
+    'thorough': ['BertE.q.t.cfg', 'BertE.nq.t.cfg', 'BertE.sk.t.cfg', 'BertE.qs.t.cfg', 'BertE.q3.t.cfg', 'BertE.qh.t.cfg', 'BertE.r.t.cfg', 'BertE.r2.cfg', 'BertE.adm.t.cfg',
                  'BertE.f.cfg', 'BertE.fp.cfg', 'BertE.fr.cfg', 'BertE.wnq.cfg', 'BertE.wq.cfg'],
 }
 SIM_CFGS = {
     'quick': [('BertE.sim.cfg', 16, 30), ('BertE.simsk.cfg', 12, 30), ('BertE.simnq.cfg', 8, 24),
-              ('BertE.sims.cfg', 12, 30), ('BertE.simf.cfg', 12, 45), ('BertE.simh.cfg', 10, 30), ('BertE.simr.cfg', 12, 36)],
+              ('BertE.sims.cfg', 12, 30), ('BertE.simf.cfg', 12, 45), ('BertE.simh.cfg', 10, 30), ('BertE.simr.cfg', 12, 36), ('BertE.sima.cfg', 12, 36)],
     'thorough': [('BertE.sim.cfg', 400, 40), ('BertE.simsk.cfg', 300, 40), ('BertE.simnq.cfg', 150, 30),
-                 ('BertE.sims.cfg', 300, 40), ('BertE.simf.cfg', 300, 60), ('BertE.simsa.cfg', 200, 40), ('BertE.simh.cfg', 300, 40), ('BertE.simr.cfg', 400, 45)],
+                 ('BertE.sims.cfg', 300, 40), ('BertE.simf.cfg', 300, 60), ('BertE.simsa.cfg', 200, 40), ('BertE.simh.cfg', 300, 40), ('BertE.simr.cfg', 400, 45), ('BertE.sima.cfg', 400, 45)],
 }
 
 
@@ -319,7 +319,7 @@ MC_PROPS = {   # design-level statements checked on S (names in BertE.tla)
     'C01': ['C01_Incl'], 'C02': ['C02_AllOrNone'], 'C03': ['C03_Green', 'C05_Select'],
     'C08': ['C08_FF', 'C08_Foreign'], 'C12': ['C12_Held'], 'C19': ['C19_Children'],
     'C06': [], 'C10': ['C10_CmdConsumed'], 'C15': ['C15_ManualKept', 'C15_OwnOnly', 'C15_LossyRefuses'],
-    'C20': ['C20_EntryFate'],
+    'C20': ['C20_EntryFate', 'C20_DestDel'],
 }
 
 
@@ -382,4 +382,4 @@ ALL_CLAUSES = ['C05.system', 'C01.incl', 'C02.incl', 'C02.allornone', 'C02.recov
                'C12.held.merged_after_queued', 'C12.nocomment', 'C12.lifted', 'C15.refuse.untouched',
                'C15.lossy.notrefused', 'C15.scope', 'C15.rebuild', 'C19.unique', 'C19.child',
                'C19.decline.prs', 'C19.decline.refs', 'C19.decline.leftover', 'C19.merge.refs', 'C19.events', 'C20.refuse.untouched',
-               'C20.create', 'C20.delete', 'C20.queues.scope', 'C20.rebuild.resubmit']
+               'C20.create', 'C20.delete', 'C20.delete.overrefuse', 'C20.queues.scope', 'C20.rebuild.resubmit']
